@@ -175,6 +175,19 @@ func (e *Engine) enterBlock(s *State, f *Frame, probe *probeRec) bool {
 	fromBack := f.prev != nil && body[f.prev]
 	if fromBack {
 		if probe == nil {
+			for _, want := range f.contract.LoopCalls[ord] {
+				found := false
+				start := 0
+				if snap := f.entrySnap[ord]; snap != nil {
+					start = snap.callLogLen
+				}
+				for _, got := range s.callLog[min(start, len(s.callLog)):] {
+					if got == want {
+						found = true
+					}
+				}
+				e.emit(s, "loop-calls", fmt.Sprintf("%sloop%d.%s", inl, ord, want), BoolC(found), b.Instrs[0].Pos(), "every iteration of the loop calls "+want)
+			}
 			for k, cl := range invs {
 				t := e.evalInv(s, f, cl)
 				e.emit(s, "inv-step", fmt.Sprintf("%sloop%d#%d", inl, ord, k), t, b.Instrs[0].Pos(), cl.Src)
@@ -186,7 +199,7 @@ func (e *Engine) enterBlock(s *State, f *Frame, probe *probeRec) bool {
 	if f.entrySnap == nil {
 		f.entrySnap = map[int]*loopSnap{}
 	}
-	snap := &loopSnap{names: make(map[string]nameRef, len(f.names)), heap: make(map[*Object]interface{}, len(s.heap))}
+	snap := &loopSnap{names: make(map[string]nameRef, len(f.names)), heap: make(map[*Object]interface{}, len(s.heap)), callLogLen: len(s.callLog)}
 	for k, v := range f.names {
 		snap.names[k] = v
 	}
